@@ -186,10 +186,16 @@ PROPS = {
     ),
     'C20': dict(
         title='Declaration algebra: iteration, membership, + and - obey ordered-set laws',
-        contracts=[], falsifier='C20', modes=['py'], level='other',
-        level_text='Bounded only so far: exhaustive over all ordered interface DAGs <=3/4 and argument trees of depth <=2; the recorded deviation of + from the literal placement rule is announced as KNOWN-FINDING.',
-        level_note='bounded exhaustive small scope; one known finding',
-        explanation='bounded run-time contract checking of the real code against an executable specification written from the statement; no obligation discharged yet for this property',
+        contracts=['C20_decl'], falsifier='C20', modes=['py'], level='other',
+        level_text="Verified from the real bodies against ifs(S), 'declared order without duplicates, nested declarations flattened in "
+                   "place': the three interfaces() generators (interface, declaration, empty declaration), Specification.extends, "
+                   "Declaration.__contains__ (member iff listed), Declaration.__sub__ (keeps, in order, exactly what neither is nor "
+                   "extends an interface of B; operands unchanged) and Declaration.__add__: the literal placement rule of the "
+                   "statement is PROVED for every operand pair outside the recorded region and the unrestricted obligation fails "
+                   "(KNOWN-FINDING C20-add-placement-literal). flattened(), _normalizeargs, alsoProvides/noLongerProvides are checked "
+                   "bounded (exhaustive over DAGs <= 3/4 and argument trees of depth 2).",
+        level_note="Declaration(...) constructor and _normalizeargs are assumed contracts; members compared by identity; one known finding.",
+        explanation='algebra operations proved against an executable-independent specification; one recorded deviation from the literal statement; constructor/normalisation bounded',
     ),
     'C11': dict(
         title='Lookups stay memory-safe and atomic when other code mutates the registry',
